@@ -510,3 +510,4 @@ Proof.
     rewrite Ec, Es. rewrite Es in Hr. apply IH; [exact Hsc| |exact Hr].
     eapply pset_wf. exact Hp.
 Qed.
+
